@@ -96,16 +96,6 @@ def emptyFlags : List BGeom → List Bool
   | g :: gs => (vertices g).isEmpty :: emptyFlags gs
 end
 
-mutual
-/-- every `*Bounds` used as a geometry is a non-empty box -/
-def boxesNonEmpty : Geom FKey → Bool
-  | .bounds mn mx => !emptyB (⟨mn, mx⟩ : KBox)
-  | .collection gs => boxesNonEmptyL gs
-  | _ => true
-def boxesNonEmptyL : List (Geom FKey) → Bool
-  | [] => true
-  | g :: gs => boxesNonEmpty g && boxesNonEmptyL gs
-end
 
 def showFault : Fault → String
   | .index => "index" | .nilDeref => "nilDeref" | .nilFunc => "nilFunc" | .explicit => "explicit" | .badState => "badState"
@@ -177,7 +167,7 @@ def boxRel (a b : KBox) : String :=
   else if sharePointB a b then "touch"
   else "disjoint"
 
-def canon (a : KBox) : Bool := !emptyB a || a == emptyBox
+def canon (a : KBox) : Bool := canonB a
 
 /-- two boxes from the start of the token list -/
 def pTwo (t : Tok) : Option (KBox × Option KBox × Tok) := do
